@@ -337,6 +337,25 @@ def read_parse_line(pl, interp, instruction_all):
     return [s for _, _, s in sorted(stages)]
 
 
+def _get_key(fenv, v):
+    """`d.get(K)` / `d.get(K, None)` / `d[K] if K in d else None` -> (True, K)"""
+    if U.is_call(v, "get") and v.args and not v.keywords and len(v.args) <= 2:
+        if len(v.args) == 2 and fenv.try_const(v.args[1]) != (True, None):
+            return False, None
+        return fenv.try_const(v.args[0])
+    if isinstance(v, ast.IfExp) and isinstance(v.test, ast.Compare) and len(v.test.ops) == 1:
+        t, pos, neg = v.test, v.body, v.orelse
+        if isinstance(t.ops[0], ast.NotIn):
+            pos, neg = neg, pos
+        elif not isinstance(t.ops[0], ast.In):
+            return False, None
+        ok, k = fenv.try_const(t.left)
+        if ok and isinstance(pos, ast.Subscript) and fenv.try_const(pos.slice) == (True, k) \
+                and ast.dump(pos.value) == ast.dump(t.comparators[0]) and fenv.try_const(neg) == (True, None):
+            return True, k
+    return False, None
+
+
 def read_memory(pm, interp):
     fenv = U.FnEnv(pm, interp)
     if len(pm.args.args) != 2:
@@ -353,8 +372,8 @@ def read_memory(pm, interp):
     gets = {}
     get_list = []
     for n in ast.walk(pm):
-        if isinstance(n, ast.Assign) and isinstance(n.targets[0], ast.Name) and U.is_call(n.value, "get") and n.value.args:
-            ok, k = fenv.try_const(n.value.args[0])
+        if isinstance(n, ast.Assign) and isinstance(n.targets[0], ast.Name):
+            ok, k = _get_key(fenv, n.value)
             if ok and isinstance(k, str):
                 gets.setdefault(n.targets[0].id, []).append(k)
                 get_list.append([n.lineno, n.targets[0].id, k])
